@@ -31,6 +31,7 @@ Plan gen_plan_sgl(const ProfileCfg &pc, uint64_t run_seed);
 Plan gen_plan_sgl_enum(const ProfileCfg &pc, uint64_t run_seed, uint64_t idx); // systematic 2-cut partitions
 uint64_t sgl_enum_cells();
 Plan gen_plan_keyprep(const ProfileCfg &pc, uint64_t run_seed);
+Plan gen_plan_indep_entry(const ProfileCfg &pc, uint64_t run_seed); // C17: entry points on one manager, parked jobs on another
 Plan gen_plan_f12(const ProfileCfg &pc, uint64_t run_seed); // exploration aid (sync burst with async jobs parked)
 Plan gen_plan_dmisuse(const ProfileCfg &pc, uint64_t run_seed); // C12 direct-API argument catalogue
 // a random applicable violation id for spec (0 if none)
